@@ -1,0 +1,1 @@
+//! Differential-driver access to crate-private items (group: flat). See /verif/DESIGN.md.
